@@ -40,6 +40,8 @@ class ThreadRec:
         self.truncated = False
         self.panicked = None
         self.blocked = None
+        self.pool = []
+        self.made = 0
 
 
 class World:
@@ -51,6 +53,8 @@ class World:
         self.objs = {}  # key -> (kind, name, init)
         self.order = []
         self.results = []
+        self.chan_pool = []
+        self.shared_ids = None
 
     def obj(self, kind, key, init=None, name=None):
         k = (kind, key)
@@ -203,9 +207,114 @@ def install(I):
 
     I.native_field_hook = elem_value_hook
 
+    # ---- shared memory cells (scalars and channel pointers) are visible reads / writes inside goroutines
+    def cell_kind(v):
+        if isinstance(v, bool) or z3.is_bool(v) if is_sym(v) else isinstance(v, bool):
+            return 'bool'
+        if isinstance(v, int) or (is_sym(v) and z3.is_bv(v)):
+            return 'int'
+        if v is None or isinstance(v, Chan):
+            return 'chanptr'
+        return None
+
+    def shared_cell(I, p):
+        w = world(I)
+        if w.cur is None or not getattr(w, 'shared_ids', None) or id(p.c) not in w.shared_ids:
+            return None
+        return w
+
+    def load_hook(I, p, ins):
+        w = shared_cell(I, p)
+        if w is None:
+            return False, None
+        cur = p.c[p.i]
+        t = I.prog.types.get(ins.get('t')) if ins else None
+        kind = None
+        if t is not None:
+            u = t.under()
+            if t.isint():
+                kind = 'int'
+            elif t.isbool():
+                kind = 'bool'
+            elif u.kind == 'chan':
+                kind = 'chanptr'
+        if kind is None:
+            return False, None
+        name = w.obj('cell', pkey(p), init=cell_init(I, w, cur, kind))
+        w.objs[('cell', pkey(p))]['ckind'] = kind
+        if kind == 'int':
+            bits, signed = t.intinfo()
+            r = I.fresh_bv('rd', bits)
+            rec(I, 'read', name, res=r, ins=ins)
+            return True, r
+        if kind == 'bool':
+            r = I.fresh_bool('rd')
+            rec(I, 'read', name, res=r, ins=ins)
+            return True, r
+        r = I.fresh_int('rdchan')
+        rec(I, 'read', name, res=r, ins=ins)
+        cands = [None] + w.chan_pool
+        I.add(z3.And(r >= 0, r <= len(w.chan_pool)))
+        i = I.decide([r == j for j in range(len(cands))], 'chan-cell')
+        return True, cands[i]
+
+    def cell_init(I, w, cur, kind):
+        if kind == 'int':
+            return cur
+        if kind == 'bool':
+            return cur
+        if cur is None:
+            return 0
+        return w.chan_pool.index(cur) + 1 if cur in w.chan_pool else 0
+
+    def store_hook(I, p, v, ins):
+        w = shared_cell(I, p)
+        if w is None:
+            return False
+        cur = p.c[p.i]
+        key = ('cell', pkey(p))
+        kind = w.objs[key].get('ckind') if key in w.objs else None
+        if kind is None:
+            if isinstance(v, bool) or (is_sym(v) and z3.is_bool(v)):
+                kind = 'bool'
+            elif isinstance(v, int) or (is_sym(v) and z3.is_bv(v)):
+                kind = 'int'
+            elif isinstance(v, Chan) or (v is None and (cur is None or isinstance(cur, Chan))):
+                kind = 'chanptr'
+            else:
+                if isinstance(v, (SV, AV, Ptr, MapVal, Iface, Closure)) or v is None:
+                    w.nonscalar_shared_writes = getattr(w, 'nonscalar_shared_writes', 0) + 1
+                return False
+        name = w.obj('cell', pkey(p), init=cell_init(I, w, cur, kind))
+        w.objs[key]['ckind'] = kind
+        if kind == 'chanptr':
+            val = z3.IntVal(0 if v is None else w.chan_pool.index(v) + 1)
+        elif kind == 'bool':
+            val = z3.BoolVal(v) if isinstance(v, bool) else v
+        else:
+            bits = cur.size() if (is_sym(cur) and z3.is_bv(cur)) else (v.size() if (is_sym(v) and z3.is_bv(v)) else 64)
+            val = z3.BitVecVal(v, bits) if isinstance(v, int) else v
+        rec(I, 'write', name, (val,), ins=ins)
+        return True
+
+    I.shared_load_hook = load_hook
+    I.shared_store_hook = store_hook
+
     # ---- channels / select
     def chan_make(I, args, ins):
         n = args[0]
+        w = world(I)
+        if w.cur is not None:
+            # channels made inside a goroutine come from its pre-allocated pool so that every goroutine can name them
+            th = w.cur
+            if th.made >= len(th.pool):
+                raise Unwind('goroutine %s makes more than %d channels' % (th.name, len(th.pool)))
+            ch = th.pool[th.made]
+            th.made += 1
+            ch.cap = n if isinstance(n, int) else 0
+            w.obj('chan', id(ch), init=ch.cap)
+            w.objs[('chan', id(ch))]['init'] = ch.cap
+            return ch
         return Chan(n if isinstance(n, int) else 0, name=(ins or {}).get('pos', ''))
 
     def chname(I, ch):
@@ -335,7 +444,10 @@ def install(I):
     def v_go(I, args, ins):
         w = world(I)
         name = cbase.gostr(args[0])
-        w.threads.append(ThreadRec(name, args[1]))
+        th = ThreadRec(name, args[1])
+        th.pool = [Chan(0, name='%s#%d' % (name, k)) for k in range(I.cfg.get('chan_pool', 2))]
+        w.chan_pool.extend(th.pool)
+        w.threads.append(th)
         return None
 
     def v_assert_thread(I, args, ins):
@@ -355,8 +467,43 @@ def install(I):
 
 
 # ---------------------------------------------------------------------------------------------- composition
+def reachable_containers(roots):
+    seen = set()
+    out = set()
+    stack = list(roots)
+    while stack:
+        v = stack.pop()
+        if isinstance(v, (int, str, bool, float)) or v is None or is_sym(v):
+            continue
+        if id(v) in seen:
+            continue
+        seen.add(id(v))
+        if isinstance(v, Ptr):
+            out.add(id(v.c))
+            stack.append(v.c)
+        elif isinstance(v, (list, tuple)):
+            if isinstance(v, list):
+                out.add(id(v))
+            stack.extend(v)
+        elif isinstance(v, SliceVal):
+            if v.arr is not None:
+                out.add(id(v.arr))
+                stack.append(v.arr)
+        elif isinstance(v, Iface):
+            stack.append(v.v)
+        elif isinstance(v, Closure):
+            stack.extend(v.bindings)
+        elif isinstance(v, MapVal):
+            for kv in v.items:
+                stack.extend(kv)
+        elif isinstance(v, Native):
+            stack.extend(v.__dict__.values())
+    return out
+
+
 def run_threads(I, ins):
     w = world(I)
+    w.shared_ids = reachable_containers([th.fn for th in w.threads])
     for th in w.threads:
         w.cur = th
         try:
@@ -446,7 +593,15 @@ def solve_tuple(I, w):
         elif kind == 'ctx':
             st0[nm + '.cancelled'] = z3.BoolVal(False)
         elif kind == 'cell':
-            st0[nm] = o['init']
+            iv = o['init']
+            ck = o.get('ckind')
+            if ck == 'bool':
+                iv = z3.BoolVal(iv) if isinstance(iv, bool) else iv
+            elif ck == 'chanptr':
+                iv = z3.IntVal(iv if isinstance(iv, int) else 0)
+            elif isinstance(iv, int):
+                iv = z3.BitVecVal(iv, 64)
+            st0[nm] = iv
     pcs0 = [z3.IntVal(0) for _ in threads]
     who = [z3.Int(I.fresh_name('who')) for _ in range(K)]
     stop = z3.Int(I.fresh_name('stop'))
